@@ -36,13 +36,15 @@ def order_sensitive_docs(rng, n, idx):
     ro_txt = gen.grid_ro(names, rng.choice(['none', 'between']), pretty=False)
     def mid(v):
         return PADDED.get(v, str(v)) if rng.random() < 0.5 else str(v)
-    ro_txt = ro_txt.replace('<messageID>1</messageID>', '<messageID>%s</messageID>' % mid(ids_numeric[0]))
+    # the roCreate is usually, but not always, the message with the lowest ID
+    create_id = ids_numeric[0] if rng.random() < 0.7 else rng.choice(ids_numeric)
+    ro_txt = ro_txt.replace('<messageID>1</messageID>', '<messageID>%s</messageID>' % mid(create_id))
     docs = [ro_txt]
     live = list(names)
     fresh = gen.Ids('O%d.' % idx)
     # in 40% of the lists a roDelete sits somewhere in the middle: what follows it is refused
     end_at = rng.randrange(1, n) if (n > 2 and rng.random() < 0.4) else None
-    for k, v in enumerate(ids_numeric[1:]):
+    for k, v in enumerate([x for x in ids_numeric if x != create_id]):
         c = rng.random()
         if end_at == k + 1:
             docs.append(B.msg_doc('roDelete', 5).replace('<messageID>5</messageID>',
@@ -79,7 +81,7 @@ def order_sensitive_docs(rng, n, idx):
             d = d.replace('<mosID>MOS ID</mosID>', '<mosID>%s</mosID><ncsID>%s</ncsID>' % (
                 rng.choice(['MOS ID', 'MOS B']), rng.choice(['NCS1', 'NCS2', 'NCS3'])), 1)
         docs.append(d)
-    return docs, ids_numeric
+    return docs, ids_numeric, create_id
 
 
 def run(s):
@@ -93,7 +95,9 @@ def run(s):
                 continue
             rng = s.rng('list', i)
             n = rng.choice([2, 3, 4, 5, 5, 6, 8, 12] if not q else [2, 3, 4, 4, 5, 7])
-            docs, numeric = order_sensitive_docs(rng, n, i)
+            docs, numeric, create_id = order_sensitive_docs(rng, n, i)
+            others = [x for x in numeric if x != create_id]
+            s.hist['lists_where_the_roCreate_is_not_first'] += int(create_id != numeric[0])
             lexical_differs = sorted(str(v) for v in numeric) != [str(v) for v in numeric]
             fold_text, n_failed, ferr, applied = K.hand_fold(s, docs, False)
             EV.drain()
@@ -119,9 +123,9 @@ def run(s):
                     s.custom_violation('collection-rejected-for-one-input-order', {'exc': type(cerr).__name__}, wit)
                     continue
                 got_ids = [mr.message_id for mr in mc.mos_readers]
-                if got_ids != numeric[1:]:
+                if got_ids != others:
                     s.custom_violation('readers-not-in-ascending-numeric-message-id-order',
-                                       {'got': got_ids, 'want': numeric[1:], 'how': how}, wit, status=how)
+                                       {'got': got_ids, 'want': others, 'how': how}, wit, status=how)
                 merr, wn = K.merge_collection(s, mc, False)
                 EV.drain()
                 t = str(mc)
@@ -180,7 +184,9 @@ def replay(s, data):
         if mc is None:
             s.custom_violation('collection-rejected-for-one-input-order', {'exc': type(cerr).__name__}, w)
             return
-        want = sorted(K.message_id_of(d) for d in docs)[1:]
+        from xml.etree import ElementTree as ET
+        from ..spec import classify_doc
+        want = sorted(K.message_id_of(d) for d in docs if classify_doc(ET.fromstring(d)) != 'RunningOrder')
         got = [mr.message_id for mr in mc.mos_readers]
         if got != want:
             s.custom_violation('readers-not-in-ascending-numeric-message-id-order', {'got': got, 'want': want}, w)
